@@ -13,6 +13,4 @@ let () =
   register "gfm_filter" (fun a -> "ok " ^ hex_of_bytes (M.gfm_filter (arg a 0)));
   register "lt_escape_first" (fun a -> "ok " ^ hex_of_bytes (M.lt_escape_first (arg a 0)));
   register "any_disallowed" (fun a -> pr_bool (M.any_disallowed (arg a 0)));
-  register "disallowed_at_narrow" (fun a -> pr_bool (M.disallowed_at_narrow (arg a 0)));
-  register "gfm_filter_narrow" (fun a -> "ok " ^ hex_of_bytes (M.gfm_filter_narrow (arg a 0)));
   register "lt_expansion" (fun a -> pr_bool (M.lt_expansion (arg a 0) (arg a 1)))
